@@ -744,7 +744,7 @@ func (vc *VC) detUF(key string, i int, argSorts, argTerms []string, resSort stri
 
 func isHigherOrder(key string) bool {
 	switch key {
-	case "slices.ContainsFunc", "slices.IndexFunc", "slices.SortFunc", "slices.SortStableFunc", "slices.Contains":
+	case "slices.ContainsFunc", "slices.IndexFunc", "slices.SortFunc", "slices.SortStableFunc", "slices.Contains", "slices.Sort":
 		return true
 	}
 	return false
@@ -765,9 +765,14 @@ func (ft *fnTrans) higherOrder(x ssa.Value, key string, c *ssa.CallCommon, h *He
 		ft.vals[x] = vc.define(nameOr(x, "contains"), "Bool", fmt.Sprintf("(exists ((%s Int)) (and (<= 0 %s) (< %s (s-len %s)) (= %s %s)))", iv, iv, iv, s, el, ft.val(c.Args[1])))
 		return true
 	}
-	fn, bindings, ok := ft.closureOf(c.Args[1])
-	if !ok {
-		unsup("%s with a function value that is not a literal", key)
+	var fn *ssa.Function
+	var bindings []ssa.Value
+	if key != "slices.Sort" {
+		var ok bool
+		fn, bindings, ok = ft.closureOf(c.Args[1])
+		if !ok {
+			unsup("%s with a function value that is not a literal", key)
+		}
 	}
 	s := ft.val(c.Args[0])
 	sl := c.Args[0].Type().Underlying().(*types.Slice)
@@ -792,7 +797,7 @@ func (ft *fnTrans) higherOrder(x ssa.Value, key string, c *ssa.CallCommon, h *He
 		vc.assume(implies("(>= "+r+" 0)", pr))
 		vc.assume(fmt.Sprintf("(forall ((%s Int)) (=> (and (<= 0 %s) (< %s (s-len %s)) (or (< %s 0) (< %s %s))) (not %s)))", jv, jv, jv, s, r, jv, r, pj))
 		ft.vals[x] = r
-	case "slices.SortFunc", "slices.SortStableFunc":
+	case "slices.SortFunc", "slices.SortStableFunc", "slices.Sort":
 		// in-place: the backing array of s changes inside [off, off+len); result sorted (adjacent pairs) and
 		// every element of the result occurs in the input and vice versa (assumed contract of the library sort)
 		ft.vc.oblige("frame", ft.siteName("frame.sort"), and(reach, "(> (s-len "+s+") 1)"), ft.frameGoal(comp, "(s-base "+s+")"), "in-place sort writes a backing array outside modifies", 0)
@@ -802,8 +807,22 @@ func (ft *fnTrans) higherOrder(x ssa.Value, key string, c *ssa.CallCommon, h *He
 		vc.assume(fmt.Sprintf("(forall ((r Int)) (! (=> (not (= r (s-base %s))) (= (select %s r) (select %s r))) :pattern ((select %s r))))", s, newT, oldT, newT))
 		vc.assume(fmt.Sprintf("(forall ((%s Int)) (! (=> (or (< %s (s-off %s)) (>= %s (+ (s-off %s) (s-len %s)))) (= (select (select %s (s-base %s)) %s) (select (select %s (s-base %s)) %s))) :pattern ((select (select %s (s-base %s)) %s))))",
 			iv, iv, s, iv, s, s, newT, s, iv, oldT, s, iv, newT, s, iv))
-		cmpAdj := ft.evalClosure(fn, bindings, []string{elemAt(*h, iv), elemAt(*h, "(+ "+iv+" 1)")}, pre)
-		vc.assume(fmt.Sprintf("(forall ((%s Int)) (=> (and (<= 0 %s) (< (+ %s 1) (s-len %s))) (<= %s 0)))", iv, iv, iv, s, cmpAdj))
+		if key == "slices.Sort" {
+			// natural order of the element type (strings and integers)
+			var ordered string
+			switch {
+			case isString(sl.Elem()):
+				ordered = not("(slt " + elemAt(*h, "(+ "+iv+" 1)") + " " + elemAt(*h, iv) + ")")
+			case isInteger(sl.Elem()):
+				ordered = "(<= " + elemAt(*h, iv) + " " + elemAt(*h, "(+ "+iv+" 1)") + ")"
+			default:
+				unsup("slices.Sort over %s", sl.Elem())
+			}
+			vc.assume(fmt.Sprintf("(forall ((%s Int)) (=> (and (<= 0 %s) (< (+ %s 1) (s-len %s))) %s))", iv, iv, iv, s, ordered))
+		} else {
+			cmpAdj := ft.evalClosure(fn, bindings, []string{elemAt(*h, iv), elemAt(*h, "(+ "+iv+" 1)")}, pre)
+			vc.assume(fmt.Sprintf("(forall ((%s Int)) (=> (and (<= 0 %s) (< (+ %s 1) (s-len %s))) (<= %s 0)))", iv, iv, iv, s, cmpAdj))
+		}
 		vc.assume(fmt.Sprintf("(forall ((%s Int)) (=> %s (exists ((%s Int)) (and %s (= %s %s)))))", iv, inRange(iv), jv, inRange(jv), elemAt(*h, iv), elemAt(pre, jv)))
 		vc.assume(fmt.Sprintf("(forall ((%s Int)) (=> %s (exists ((%s Int)) (and %s (= %s %s)))))", iv, inRange(iv), jv, inRange(jv), elemAt(pre, iv), elemAt(*h, jv)))
 		vc.assumeClosed(*h, comp)
